@@ -763,7 +763,7 @@ def run_for(ctx, pid, with_mc=True):
         judge(ctx, pid, rejected, focused=(tag != "common_pool"))
         if pid == "C03" and tag != "common_pool":
             group_rule(ctx, scs, rejected)
-    if pid in ("C02", "C03", "C04", "C05", "C07"):
+    if pid in ("C02", "C03", "C04", "C05", "C06", "C07"):
         from . import recv_model
         recv_model.replay(ctx, pid)
     if pid in ("C02", "C03"):
